@@ -130,7 +130,10 @@ class NsHandler:
 
     def maybe_capitalize(self, tag):
         if self.capitalize:
-            return tag[0:1].upper() + tag[1:]
+            first = tag[0:1].upper()
+            # a letter without a one-character upper case (sharp s) is left alone, as MediaWiki does
+            if len(first) == 1:
+                return first + tag[1:]
         return tag
 
     def splitname(self, title, defaultns=0):
